@@ -11,6 +11,7 @@ from contextlib import contextmanager
 from . import simpool
 
 _INSTALLED = False
+_INSTALLED_AT = -1
 _REAL = {}
 PATCHED_MODULES = []
 BACKEND = None  # backend string reported while a run is active
@@ -26,9 +27,12 @@ def _pool_seam(*args, **kwargs):
 def install():
     """Idempotent. Call after ``import pyimpspec`` (and again after lazily
     imported pyimpspec modules may have appeared)."""
-    global _INSTALLED
+    global _INSTALLED, _INSTALLED_AT
     import pyimpspec  # noqa: F401
 
+    if _INSTALLED and _INSTALLED_AT == len(sys.modules):
+        return PATCHED_MODULES  # nothing was imported since the last scan
+    _INSTALLED_AT = len(sys.modules)
     if "Pool" not in _REAL:
         _REAL["Pool"] = multiprocessing.Pool
     real_pool = _REAL["Pool"]
@@ -151,18 +155,38 @@ def _sim_clock():
     return _CLOCK_BASE + sim.now
 
 
+_CLOCK_SITES = None  # [(module, attribute, kind)] - names bound to a real clock function inside the library
+_CLOCK_SITES_AT = -1
+_ACTIVE_SITES = []
+
+
+def _clock_sites():
+    global _CLOCK_SITES, _CLOCK_SITES_AT
+    if _CLOCK_SITES is None or _CLOCK_SITES_AT != len(sys.modules):
+        reals = {id(REAL_TIME[k]): k for k in REAL_TIME}
+        sites = []
+        for name, mod in list(sys.modules.items()):
+            if mod is None or not (name == "pyimpspec" or name.startswith("pyimpspec.")):
+                continue
+            for attr, val in list(vars(mod).items()):
+                if id(val) in reals and callable(val):
+                    sites.append((mod, attr, reals[id(val)]))
+        _CLOCK_SITES, _CLOCK_SITES_AT = sites, len(sys.modules)
+    return _CLOCK_SITES
+
+
 def _patch_clocks(on):
     """While a run is active every wall/monotonic clock the library could read is the simulated one:
     names imported into pyimpspec modules (from time import monotonic) and the time module itself."""
-    reals = {id(REAL_TIME[k]): k for k in REAL_TIME}
-    for name, mod in list(sys.modules.items()):
-        if mod is None or not (name == "pyimpspec" or name.startswith("pyimpspec.")):
-            continue
-        for attr, val in list(vars(mod).items()):
-            if on and id(val) in reals and callable(val):
-                setattr(mod, attr, _SimClockFn(reals[id(val)]))
-            elif not on and isinstance(val, _SimClockFn):
-                setattr(mod, attr, REAL_TIME[val.kind])
+    global _ACTIVE_SITES
+    if on:
+        _ACTIVE_SITES = list(_clock_sites())
+        for mod, attr, kind in _ACTIVE_SITES:
+            setattr(mod, attr, _SimClockFn(kind))
+    else:
+        for mod, attr, kind in _ACTIVE_SITES:  # exactly the names that were replaced when the run started
+            setattr(mod, attr, REAL_TIME[kind])
+        _ACTIVE_SITES = []
     for k in REAL_TIME:
         setattr(_time, k, _SimClockFn(k) if on else REAL_TIME[k])
 
